@@ -75,6 +75,22 @@ def run(ctx):
                                  lambda v, e=expected: decide_equal(v, e),
                                  allowed_raises=('AssertionError',),
                                  sample={'n': k, 'rhs': short(expected)})
+        # degenerate control points (the leading coefficients of the polynomial vanish EXACTLY: a degree-elevated curve, all points
+        # equal): a derivative read off a coefficient table whose length follows the degree goes wrong only here
+        if n >= 3:
+            Qd = cpoints(2, 'q')
+            if n == 3:
+                degs = [('degree-elevated line', [Qd[0], (Qd[0] + Qd[1]) / 2, Qd[1]]), ('all control points equal', [Qd[0]] * 3)]
+            else:
+                Qq = cpoints(3, 'q')
+                degs = [('degree-elevated quadratic', [Qq[0], (Qq[0] + 2 * Qq[1]) / 3, (2 * Qq[1] + Qq[2]) / 3, Qq[2]]),
+                        ('degree-elevated line', [Qd[0], (2 * Qd[0] + Qd[1]) / 3, (Qd[0] + 2 * Qd[1]) / 3, Qd[1]]), ('all control points equal', [Qd[0]] * 4)]
+            for dl, Pd in degs:
+                for k in (1, 2, 3):
+                    expd = nderiv(bernstein(Pd, T), 't', k)
+                    ob(R + '.deriv').run(f, '%s.derivative(t, n=%d) on a %s' % (cname, k, dl),
+                                         lambda it, Pd=Pd, cq=cq, k=k: it.call_method(it.construct(cq, *Pd), 'derivative', T, n=k),
+                                         lambda v, e=expd: decide_equal(v, e), allowed_raises=('AssertionError',))
         for k in (0, -1):
             expect_raise(ctx, R + '.deriv', f, '%s.derivative(t, n=%d) raises' % (cname, k),
                          lambda it, P=P, cq=cq, k=k: it.call_method(it.construct(cq, *P), 'derivative', T, n=k),
